@@ -9,6 +9,7 @@ native form.  `unknown` is undecided.
 from __future__ import annotations
 
 import json
+import os
 import time
 import traceback
 from dataclasses import dataclass, field
@@ -159,6 +160,31 @@ class EngineB:
 
     def check_case(self, c: FnContract, case: Case, prop_id: str, kf=None):
         """returns list of Obligations (one per clause, plus the 'raises' clause)"""
+        from . import symexec as _sx
+        before = dict(_sx.SECOND)
+        try:
+            return self._check_case(c, case, prop_id, kf)
+        finally:
+            d = self.rep.extra.setdefault("second_backend_cvc5", {"rechecked": 0, "agree": 0, "unknown": 0, "unsupported": 0,
+                                                                   "disagree": 0, "time_ms": 0})
+            for k in d:
+                d[k] += _sx.SECOND[k] - before[k]
+            if _sx.SECOND["disagree"] > before["disagree"]:
+                import shutil
+                from .core import VERIF
+                dest = os.path.join(VERIF, "replays", prop_id)
+                os.makedirs(dest, exist_ok=True)
+                for pth in _sx.SECOND_FILES:
+                    try:
+                        shutil.move(pth, os.path.join(dest, os.path.basename(pth)))
+                    except OSError:
+                        pass
+                _sx.SECOND_FILES.clear()
+                self.rep.crosscheck["disagreements"] += _sx.SECOND["disagree"] - before["disagree"]
+                self.rep.crosscheck.setdefault("first", {"unit": c.qualname, "triple": case.name, "input": "z3: unsat, cvc5: sat",
+                                                         "got": f"query saved under replays/{prop_id}/"})
+
+    def _check_case(self, c: FnContract, case: Case, prop_id: str, kf=None):
         t0 = time.time()
         Z = Sorts.get()
         modname, fname = c.qualname.split(":")
@@ -440,6 +466,11 @@ def discharge(rep, kf, contracts, prop_id, tier="quick", seed=0, summaries=None)
     """Check all cases of the given FnContracts whose props include prop_id; known-finding handling per clause."""
     from .core import run_native
     E = EngineB(rep, seed, timeout_ms=10000 if tier == "quick" else 60000)
+    from . import symexec as _sx
+    if not getattr(_sx, "_second_budget_set", False):
+        # per process: how many `unsat` answers are re-decided by cvc5 (all of them in the thorough tier, up to a cap)
+        _sx.SECOND["budget"] = int(os.environ.get("PYVC_CVC5_MAX", "40" if tier == "quick" else "5000"))
+        _sx._second_budget_set = True
     if summaries:
         E.contracts.update(summaries)
     printed = set(f for f, _ in rep.known_lines)
